@@ -152,7 +152,7 @@ Proof.
 Qed.
 
 (* ---------------------------------------------------------------- minimum Feret diameter, end to end *)
-From Centro Require Import Proofs.FeretMinC13 Proofs.HullAreaVecC13Proofs Model.HullAreaC13 Model.HullAreaVecC13.
+From Centro Require Import Proofs.FeretMinC13 Proofs.FeretConeC13 Proofs.HullAreaVecC13Proofs Model.HullAreaC13 Model.HullAreaVecC13.
 
 (* the minimum returned by the sweep on the label's hull is - cross-multiplied - a squared width that the label's
    own pixel set S attains in a direction normal to a hull edge, and no strip normal to a hull edge that contains S
@@ -174,6 +174,56 @@ Proof.
   destruct (feret_min_edge_flush S V HS L3) as [bn [bd (Eb' & Bd & At & Low)]].
   rewrite Eb in Eb'. injection Eb' as ->. cbn [fst snd] in *.
   exists mx, mq, bn, bd. repeat split; try assumption.
+Qed.
+
+(* the same with the lower bound over ALL directions: the minimum Feret diameter returned by the sweep is the
+   minimum width of the label's own pixel set, min over u <> 0 of (max - min of <u, s>)^2 / |u|^2 *)
+Theorem feret_min_end_to_end_all ijv indexes r :
+  NoDup indexes -> (r < length indexes)%nat -> nonneg_rows ijv ->
+  let l := nth r indexes 0 in
+  let S := pts_of ijv l in
+  let V := own_hull ijv l in
+  (3 <= length V)%nat ->
+  exists mx mq bn bd,
+    nth r (feret_rows (fst (convex_hull_ijv ijv indexes))) (sweep []) = Some (mx, mq) /\
+    0 < snd mq /\ 0 < bd /\ fst mq * bd = bn * snd mq /\
+    width_attained S bn bd /\ width_lower (fun u => u <> (0, 0)) S bn bd.
+Proof.
+  intros ND Hr Hnn l S V L3.
+  destruct (feret_end_to_end ijv indexes r ND Hr Hnn) as [HS [mx [mq (E & _ & _ & Big)]]]. fold l S V in HS, Big.
+  destruct (Big L3) as [bq (Eb & Pm & Pb & Eq)].
+  destruct (feret_min_all_directions S V HS L3) as [bn [bd (Eb' & Bd & At & Low)]].
+  rewrite Eb in Eb'. injection Eb' as ->. cbn [fst snd] in *.
+  exists mx, mq, bn, bd. repeat split; try assumption.
+Qed.
+
+(* one- and two-vertex hulls (single pixels, lines): the sweep returns 0 / 1 and the width of the pixel set is 0 *)
+Theorem feret_min_end_to_end_degenerate ijv indexes r :
+  NoDup indexes -> (r < length indexes)%nat -> nonneg_rows ijv ->
+  let l := nth r indexes 0 in
+  let S := pts_of ijv l in
+  let V := own_hull ijv l in
+  (1 <= length V <= 2)%nat ->
+  exists mx,
+    nth r (feret_rows (fst (convex_hull_ijv ijv indexes))) (sweep []) = Some (mx, (0, 1)) /\
+    width_attained S 0 1 /\ width_lower (fun u => u <> (0, 0)) S 0 1.
+Proof.
+  intros ND Hr Hnn l S V LV.
+  destruct (feret_end_to_end ijv indexes r ND Hr Hnn) as [HS [mx [mq (E & _ & Small & _)]]]. fold l S V in HS, Small.
+  rewrite (Small ltac:(lia)) in E. exists mx. split; [exact E|]. exact (feret_min_degenerate S V HS LV).
+Qed.
+
+(* the hypotheses on a 3 x 2 block next to another object: the hull is the four corners, the minimum squared width
+   is 1 = 4 / 4 (the short side), attained normal to a long edge *)
+Example feret_min_all_example :
+  let ijv := [((0, 0), 3); ((0, 1), 3); ((1, 0), 3); ((1, 1), 3); ((2, 0), 3); ((2, 1), 3); ((7, 7), 5)] in
+  NoDup [5; 3] /\ nonneg_rows ijv /\ (3 <= length (own_hull ijv 3))%nat /\
+  bf_min (own_hull ijv 3) = Some (4, 4) /\
+  nth 1 (feret_rows (fst (convex_hull_ijv ijv [5; 3]))) (sweep []) = Some (5, (4, 4)).
+Proof.
+  cbv zeta. split; [repeat constructor; cbn; intuition discriminate|].
+  split; [intros x Hx; cbn in Hx; intuition (subst; cbn; lia)|].
+  split; [vm_compute; lia|]. split; vm_compute; reflexivity.
 Qed.
 
 (* calculate_convex_hull_areas as written on the rows of C02's convex_hull_ijv *)
